@@ -669,6 +669,37 @@ impl Check for C07 {
     fn hang_is_violation(&self) -> bool {
         true
     }
+    fn fixed_cases(&self, _thorough: bool) -> Vec<Case> {
+        // every scalar value once, in ascending order, as one input (4.4 MB): no code point may
+        // make scanning panic, stall or produce a malformed span
+        let pats = |v: &[&str]| ModeSpec {
+            name: "INITIAL".into(),
+            pats: v
+                .iter()
+                .enumerate()
+                .map(|(i, s)| PatSpec {
+                    rx: rx::parse_supported(s),
+                    tt: i,
+                    la: None,
+                })
+                .collect(),
+            transitions: vec![],
+        };
+        [
+            vec!["[a-z]+", "[0-9]"],
+            vec!["[^a]", "a"],
+            vec![".", "\\n"],
+            vec!["\\w+", "\\s"],
+        ]
+        .iter()
+        .map(|v| Case {
+            modes: vec![pats(v)],
+            inputs: vec![crate::sets::all_scalars().to_string()],
+            extra: serde_json::json!({"all_scalars": true}),
+            ..Case::default()
+        })
+        .collect()
+    }
     fn generate(&self, d: &mut Dec, thorough: bool) -> Case {
         let p = GenParams::for_tier(thorough)
             .with_lookaheads(48)
